@@ -21,6 +21,16 @@ type emuChan struct {
 	closed bool
 	// tasks blocked in a plain receive / in a select with a receive case on this channel
 	recvWaiting, selRecvWaiting int
+	// foreign: uninstrumented code closed or sent on the real channel (its own ordering is unknown)
+	foreign bool
+}
+
+// chanAcquire is the receive side of the channel's happens-before edge.
+func (s *Sim) chanAcquire(e *emuChan) {
+	if e.foreign {
+		s.Barrier()
+	}
+	s.AcqRel(e)
 }
 
 // pollForeign notices what code outside the instrumented packages did to the real channel (the
@@ -39,6 +49,7 @@ func (e *emuChan) pollForeign(ch any) {
 		if !ok && !x.IsValid() {
 			return // nothing there
 		}
+		e.foreign = true
 		if !ok {
 			e.closed = true
 			return
@@ -102,6 +113,7 @@ func ChanSend[T any](ch chan<- T, v T) {
 	if e.closed {
 		panic("send on closed channel")
 	}
+	s.Release(e)
 	if len(e.buf) < e.cap {
 		e.buf = append(e.buf, v)
 		return
@@ -112,6 +124,7 @@ func ChanSend[T any](ch chan<- T, v T) {
 	if s.ending {
 		return
 	}
+	s.Acquire(e) // the receive is synchronised before the completion of the send
 	if !it.taken && e.closed {
 		panic("send on closed channel")
 	}
@@ -138,6 +151,7 @@ func ChanRecv2[T any](ch <-chan T) (T, bool) {
 		e.pollForeign(ch)
 		if e.recvReady() {
 			v, ok := e.takeRecv()
+			s.chanAcquire(e)
 			if !ok {
 				return zero, false
 			}
@@ -176,6 +190,7 @@ func ChanClose[T any](ch chan<- T) {
 	if e.closed {
 		panic("close of closed channel")
 	}
+	s.Release(e)
 	e.closed = true
 }
 
@@ -214,6 +229,7 @@ func ChanLen[T any](ch chan T) int {
 // dropped when the buffer is full, as the runtime's timers do.
 func Offer[T any](s *Sim, ch chan T, v T) {
 	e := s.emu(ch, cap(ch))
+	s.Release(e)
 	if len(e.buf) < e.cap {
 		e.buf = append(e.buf, v)
 	}
@@ -319,6 +335,7 @@ func Select(hasDefault bool, cases ...SelCase) *Selected {
 				if e.closed {
 					panic("send on closed channel")
 				}
+				s.Release(e)
 				if len(e.buf) < e.cap {
 					e.buf = append(e.buf, c.val)
 				} else {
@@ -327,6 +344,7 @@ func Select(hasDefault bool, cases ...SelCase) *Selected {
 				return &Selected{I: i}
 			}
 			v, ok := e.takeRecv()
+			s.chanAcquire(e)
 			return &Selected{I: i, v: v, ok: ok}
 		}
 		if hasDefault {
